@@ -187,7 +187,20 @@ def build_chain(ctx: Ctx, M, alphabet, tmp: str, idx: int) -> Optional[Dict[str,
     if variant == "v2-subset-solution-only":
         inputs = [i for i in case["inputs"] if rng.random() < 0.6] or case["inputs"][:1]
     if variant == "v3-release-one":
-        excluded = [rng.choice(sorted(first["emitted"]))]
+        import solver_oracles as SO
+        p1 = pins_of(first)
+        # prefer releasing a project that a pinned distribution bounds (with or without extras): the new version offered by
+        # the index then lies outside that bound and the release must respect it
+        bounded = set()
+        for k, v in p1.items():
+            for rq in (SO.dist_reqs(case, k, v) or []):
+                if len(rq.specifier) and SO.canon(rq.name) in p1:
+                    bounded.add(SO.canon(rq.name))
+        pool = sorted(bounded) if bounded and rng.random() < 0.7 else sorted(first["emitted"])
+        rel = rng.choice(pool)
+        excluded = [rel]
+        if rel in new_uni and not any(c[1] == "9.0" for c in new_uni[rel]):
+            new_uni[rel].append([rel, "9.0", [], True])
     ob = rng.choice([None, None, ":all:", rng.sample(sorted(first["emitted"]), 1)])
     with_hashes = rng.random() < 0.5
     with_urls = rng.random() < 0.5
@@ -239,7 +252,7 @@ def exec_chain(M, tmp: str, idx: int, case, first, variant: str, new_uni, exclud
     second["index_log"] = list(mem2.log)
     return {"with_hashes": with_hashes, "first_hashes": first_hashes, "with_urls": with_urls, "first_urls": first_urls,
             "variant": variant, "case": case, "first": first, "second_case": second_case, "second": second,
-            "excluded": excluded, "multiline": multiline, "loader_diff": loader_diff,
+            "excluded": excluded, "multiline": multiline, "loader_diff": loader_diff, "su_loaded": su_loaded,
             "loaded": canon_universe(su_loaded) if loader_diff else None, "new_universe": new_uni}
 
 
@@ -307,8 +320,12 @@ def chain_violation(ch: Dict[str, Any]) -> Optional[str]:
     """the property statement on the real code's observations only"""
     import solver_oracles as SO
     first = ch["first"]
-    if SO.c02(ch["case"], first) or SO.c01(ch["case"], first) or SO.c08(ch["case"], first):
-        return None     # the first output is itself not a closed, consistent, honestly annotated solution (C01/C02/C08, listed there)
+    # chains whose first output is itself not a closed, consistent, honestly annotated solution belong to C01/C02/C08 (listed
+    # there). Judged on the MODEL's first compile when there is one (= the unchanged tree's behaviour, known defects included),
+    # so that a first output that is wrong only on the real code does not hide what follows from it.
+    judge = ch.get("first_model") or first
+    if SO.c02(ch["case"], judge) or SO.c01(ch["case"], judge) or SO.c08(ch["case"], judge):
+        return None
     if "loader_error" in ch:
         return f"the tool's own output cannot be loaded back as a solution ({ch['loader_error']})"
     second, variant = ch["second"], ch["variant"]
@@ -438,6 +455,29 @@ def correspondence(ctx: Ctx) -> None:
 
     chains = solverlib.in_big_thread(work)
     runnable = [ch for ch in chains if "second" in ch]
+    # The solution universe handed to the model is rebuilt from the MODEL's own first compile (pins + annotation structure,
+    # Explain.v): what a correct writer and loader must produce - independent of the real annotation code and of the real loader
+    lines1 = [solverlib.case_line(solver_case(ch["case"]), alphabet, xorder, C, U) for ch in runnable]
+    answers1 = common.run_model("Solver", lines1, timeout=1200) if lines1 else []
+    for ch, a1 in zip(runnable, answers1):
+        try:
+            m1 = solverlib.parse_model(a1)
+        except Exception:  # noqa: BLE001
+            m1 = {"kind": "?"}
+        if m1.get("kind") not in ("AMBIGUOUS", "?") and solverlib.canon(m1) != solverlib.canon(ch["first"]):
+            ctx.mismatch("first-compile", {"case": solver_case(ch["case"])}, solverlib._brief(ch["first"]), solverlib._brief(m1))
+        if m1.get("kind") != "OK" or pins_of(m1) != pins_of(ch["first"]):
+            continue        # no common first solution to feed back
+        ch["first_model"] = m1
+        su2 = sol_universe_from_first(m1)
+        if su2 is None:
+            continue
+        for k in ch["excluded"]:
+            su2.pop(U.normalize_project_name(k), None)
+        ch["second_case"]["stack"][0]["universe"] = su2
+        full = sol_universe_from_first(m1) or {}
+        ch["loader_diff"] = canon_universe(ch["su_loaded"]) != canon_universe(full)
+        ch["loaded"] = canon_universe(ch["su_loaded"]) if ch["loader_diff"] else None
     lines = [solverlib.case_line(ch["second_case"], alphabet, xorder, C, U) for ch in runnable]
     answers = common.run_model("Solver", lines, timeout=1200) if lines else []
     viol = 0
